@@ -109,6 +109,11 @@ def handle (args : List String) : Option String :=
   | ["open", acc] => do
     let a ← parseBool acc
     pure (if (openResult a).isSome then "conn" else "err")
+  | ["recvfrom", start, maxbuf, ops] => do
+    -- a receiver that has accepted `start` packets (C15_deliver: its counter is start mod 65536)
+    let st ← start.toNat?; let m ← maxbuf.toNat?
+    let r ← runOps ⟨true, st % 65536, [], m⟩ (splitList ops)
+    pure (joinList r)
   | ["emit", closed, written, packets] => do
     let c ← parseBool closed; let w ← hexDecode written
     let ps ← mapM? parsePacket (splitList packets)
